@@ -3,7 +3,7 @@
 From Coq Require Import ZArith List Bool Lia.
 Import ListNotations.
 Require Import Verif.lib.PyLite Verif.gen.BananaGen Verif.gen.RecvGen Verif.lib.Token Verif.lib.Recv Verif.lib.RecvProofs
-               Verif.lib.Unsl Verif.lib.UnslProofs Verif.lib.StdUnsl.
+               Verif.lib.Unsl Verif.lib.UnslProofs Verif.lib.UnslOnce Verif.lib.StdUnsl.
 Local Open Scope Z_scope.
 
 (* ---- the hypotheses of the generic theorems ---- *)
@@ -220,3 +220,65 @@ Qed.
 
 Lemma sctx0_wf c : swfc (sctx0 c).
 Proof. apply uctx0_wf. apply sroot_absorbs. Qed.
+
+(* ---- exactly one root event per top-level sequence, for the standard unslicers ---- *)
+Definition std_is_root (f : sfr) : bool := match s_ch f with HRoot _ => true | _ => false end.
+
+Lemma std_R1 : forall f, std_is_root f = true -> std_report f = Some [UViolation].
+Proof. intros f. unfold std_is_root, std_report. destruct (s_ch f); intros H; try discriminate; reflexivity. Qed.
+
+Lemma std_R2 : forall f es, std_is_root f = false -> std_report f = Some es -> nroot es = 0.
+Proof. intros f es. unfold std_is_root, std_report. destruct (s_ch f); intros H1 H2; discriminate. Qed.
+
+Lemma std_R3 : forall f v, std_is_root f = true -> exists f', std_child f v = ([UDeliver v], OOk f') /\ std_is_root f' = true.
+Proof. intros f v H. exists f. unfold std_is_root in *. unfold std_child. destruct (s_ch f); try discriminate. auto. Qed.
+
+Lemma std_R4 : forall f v es r, std_is_root f = false -> std_child f v = (es, r) -> nroot es = 0 /\ (forall f', r = OOk f' -> std_is_root f' = false).
+Proof.
+  intros f v es r H E. split.
+  - unfold std_child in E. unfold std_is_root in H. destruct (s_ch f); try discriminate;
+      repeat match type of E with
+             | (if ?b then _ else _) = _ => destruct b
+             | (match ?x with _ => _ end) = _ => destruct x
+             end; inversion E; subst; reflexivity.
+  - intros f' ->. unfold std_is_root in *. rewrite (std_child_kind _ _ _ _ E). exact H.
+Qed.
+
+Lemma mkchild_not_root k c ch : mkchild k c = OOk (Some ch) -> std_is_root ch = false.
+Proof.
+  unfold mkchild. cbv zeta. intros H.
+  repeat match type of H with
+         | (if ?b then _ else _) = _ => destruct b
+         | (match ?x with _ => _ end) = _ => destruct x
+         end; try discriminate; inversion H; subst; reflexivity.
+Qed.
+
+Lemma std_R5 : forall st ot ch, std_do_open st ot = OOk (Some ch) -> std_is_root ch = false.
+Proof.
+  intros st ot ch H. unfold std_do_open in H. destruct st as [|top rest]; [discriminate|]. destruct ot as [|name [|? ?]]; try discriminate.
+  destruct (s_ch top); try discriminate;
+    repeat match type of H with
+           | (if ?b then _ else _) = _ => destruct b
+           | (match ?x with _ => _ end) = _ => destruct x eqn:?
+           | mkchild _ _ = _ => apply mkchild_not_root in H; exact H
+           end; try discriminate.
+Qed.
+
+Lemma std_R6 : forall ch n ch', std_is_root ch = false -> std_start ch n = OOk ch' -> std_is_root ch' = false.
+Proof. intros ch n ch' H E. inversion E; subst. exact H. Qed.
+
+Definition std_RI := RI sfr std_is_root.
+
+Lemma sctx0_RI c : std_RI (sctx0 c).
+Proof.
+  split; [cbn; lia|]. split; [|cbn; discriminate]. exists [], {| uf_open := None; uf_st := sroot c |}. cbn. repeat split; auto.
+Qed.
+
+(* "A schema violation discards exactly the offending top-level object", standard unslicers under any constraint tree: the tokens
+   of one top-level sequence either abandon the connection or yield exactly one root event (delivered XOR reported) *)
+Theorem std_exactly_one mi lg c h b body : hd_abort_in_index = true -> uat_top sfr c -> std_RI c -> inside 1 body ->
+  hr_count sfr (sapply_all mi lg c ((tok_OPEN, h, b) :: body)) (fun c' es => nroot es = 1 /\ uat_top sfr c' /\ std_RI c').
+Proof.
+  apply (unsl_exactly_one sfr std_check (std_opener mi lg) std_do_open std_start std_child std_close std_finish std_report std_is_root
+           std_R1 std_R2 std_R3 std_R4 std_R5 std_R6 std_child_keeps_absorbing std_closing_violation_propagates).
+Qed.
